@@ -480,9 +480,11 @@ func (c *Ctx) ruleC12(m *scanfsm.Machine) {
 		}
 	}
 	// the end of the input swallowed while a lexeme is open: the unfinished lexeme is not reported and no error is raised.
-	// The property does not forbid that for malformed input (the lexemes that ARE reported stay inside the file, ordered
-	// and bracketed), so these are observations: the places where a truncated document is not told so by the scanner.
-	r.Rule("C12-EOF-OPEN", "observation: reachable configurations in which the end of the input is consumed without an error while a lexeme is open (its Begin was emitted, its End never is)", 0)
+	// For a well-formed document whose last line has no line break that loses a lexeme (F: a bare INCLUDE file name at
+	// the very end of a file). The three places where today's scanner does it are reached only by input that is cut
+	// inside a construct; they are named by the bytes that lead there (not by the name of the state, which a rename
+	// would change), and anything else is a violation.
+	r.Rule("C12-EOF-OPEN", "no reachable configuration of the scanner automaton consumes the end of the input without an error while a lexeme is open (its Begin was emitted, its End never is) - except the configurations reached by the named byte sequences, each of which cuts the input inside a construct (named exceptions, keyed by the shortest byte sequence that leads there): the last lexeme of a file without a final line break is reported like any other", 3)
 	open := a.EOFLeavesOpen()
 	seenSt := map[string]bool{}
 	for _, o := range open {
@@ -490,11 +492,24 @@ func (c *Ctx) ruleC12(m *scanfsm.Machine) {
 			continue
 		}
 		seenSt[o.State] = true
-		r.Observe("C12-EOF-OPEN", "state "+o.State+" with "+o.Open+" open", "the end of the input is consumed here without an error: the "+o.Open+" lexeme that has begun is dropped (byte trace: "+o.Trace+")", c.P.Pos(m.Pos[o.State]))
+		key := o.Open + " open after " + o.Trace
+		if why, ok := eofOpenExceptions[key]; ok {
+			r.Except(key, why)
+			r.Ok("C12-EOF-OPEN", key, "named exception: "+why+" (state "+o.State+")", c.P.Pos(m.Pos[o.State]))
+			continue
+		}
+		r.Bad("C12-EOF-OPEN", key, "the end of the input is consumed in state "+o.State+" without an error: the "+o.Open+" lexeme that has begun is dropped - the last "+o.Open+" of a file that does not end with a line break is lost", c.P.Pos(m.Pos[o.State]))
 	}
 	if c.R.Tier == "thorough" {
 		c.ruleC12Grammar(m)
 	}
+}
+
+// eofOpenExceptions: input that is cut inside a construct; confirmed by reading and by the messages the build gives.
+var eofOpenExceptions = map[string]string{
+	"Text open after 'D' 'e' 's' 'c' 'r' 'i' 'p' 't' 'i' 'o' 'n' '\\n' '('":       "a Description text in parentheses whose closing parenthesis is missing: malformed; the build reports 'the description cannot be empty'",
+	"Text open after 'D' 'e' 's' 'c' 'r' 'i' 'p' 't' 'i' 'o' 'n' '\\n' '(' '\\n'": "a Description text in parentheses whose closing parenthesis is missing: malformed; the build reports 'the description cannot be empty'",
+	"Text open after '1' '0' '0' '\\n' '/' '\\\\'":                                "a regular expression cut right after a backslash: malformed; the build reports 'the body cannot be empty'",
 }
 
 // ruleC12Grammar (thorough): the lexemes of one directive follow Keyword Parameter* Annotation? ... Body? as far as the
